@@ -1007,6 +1007,7 @@ package geom
 //@   requires Binv(b) && Brange(b) && strideOf(b.layout) >= 0 && base(args) != base(b.min) && base(args) != base(b.max)
 //@   panics when len(args) % 2 != 0
 //@   ensures res == b && b.layout == old(b.layout) && len(b.min) >= len(args) / 2 && len(b.max) == len(b.min) && len(b.min) >= old(len(b.min))
+//@   ensures [own-storage] (base(b.min) != base(b.max) || (cap(b.min) == 0 && cap(b.max) == 0)) && (cap(b.min) == 0 || base(b.min) != base(args)) && (cap(b.max) == 0 || base(b.max) != base(args))
 //@   ensures forall i int :: 0 <= i && 2 * i + 1 < len(args) ==> b.min[i] == args[i] && b.max[i] == args[i + len(args) / 2]
 //@   modifies *b, b.min[0:cap(b.min)], b.max[0:cap(b.max)]
 //@   loop 1:
